@@ -43,6 +43,16 @@ func (r *vRun) refKey(e *verifExpr) (string, bool) {
 
 // refProduced: was the step output a reference needs emitted (before sequence number `before`, 0 = ever)?
 func (r *vRun) refProduced(e *verifExpr, before int) bool {
+	if len(e.path) == 3 && e.path[0] == "steps" {
+		// a reference to a whole stage ($.steps.x.outputs): produced once the stage finished with some output
+		prefix := e.path[1].(string) + "." + e.path[2].(string) + "."
+		for k, s := range r.emitted {
+			if len(k) > len(prefix) && k[:len(prefix)] == prefix && s > 0 && (before == 0 || s < before) {
+				return true
+			}
+		}
+		return false
+	}
 	k, isStep := r.refKey(e)
 	if !isStep {
 		return true
@@ -195,6 +205,44 @@ func verifCheck(t tWorkflow, run *vRun, res *vResult, normInput any, opts vCheck
 	}
 	if nProd == 1 && !res.stuck && !opts.cancelled {
 		verifrt.Assert(res.err == nil && res.id == prodID, "the single producible output is the one returned")
+	}
+	// C03: the run does not give up while a declared output could still be produced. A step whose scripted
+	// outcome is success on every stage and that was closed by the run itself would have produced its
+	// success output.
+	if res.err != nil && !res.stuck && !opts.cancelled {
+		for _, data := range t.outputs {
+			still := true
+			for _, ref := range verifRefs(data) {
+				if run.refProduced(ref, 0) {
+					continue
+				}
+				would := false
+				if _, isStep := run.refKey(ref); isStep && ref.path[2] == "outputs" && ref.path[3] == "success" {
+					if st := run.steps[ref.path[1].(string)]; st != nil && st.preempted && st.outcome["deploy"] == 0 && st.outcome["start"] == 0 && st.outcome["result"] == 0 && len(st.outcome) >= 3 {
+						would = true
+						// ... provided its own prerequisites were there
+						for i := range t.steps {
+							if t.steps[i].id == st.id {
+								for _, f := range []string{"input", "wait_for", "enabled", "deploy"} {
+									for _, pre := range verifRefs(t.steps[i].fields[f]) {
+										if !run.refProduced(pre, 0) {
+											would = false
+										}
+									}
+								}
+							}
+						}
+					}
+				}
+				if !would {
+					still = false
+				}
+			}
+			_, oneofs := verifTagged(data)
+			if still && len(oneofs) == 0 && len(verifRefs(data)) > 0 {
+				verifrt.Assert(false, "the run does not give up with an error while a declared output is still producible")
+			}
+		}
 	}
 	// C02 / C04 / C19
 	for _, h := range run.handovers {
